@@ -4,6 +4,7 @@ import Cvise.Proofs.BinaryNoSingle
 import Cvise.Proofs.PassesBalOffers
 import Cvise.Proofs.PassesTernTerm
 import Cvise.Proofs.PassesComments
+import Cvise.Proofs.PassesIntsTerm
 /-!
 # C07 — candidates are genuine, local edits of the current file
 
@@ -22,6 +23,83 @@ theorem ok_differs_comments (s : Text) (st : Nat) (out : Text) (st' : Nat)
     (h : comments.transform s st = (.ok, out, st')) : out ≠ s := commentsLoop_ok_differs s _ st out st' h
 theorem ok_differs_peep (arg : String) (s : Text) (st : PeepSt) (out : Text) (st' : PeepSt)
     (h : (peep arg).transform s st = (.ok, out, st')) : out ≠ s := peep_ok_differs arg s st out st' h
+
+/-! ### ints and special: every candidate differs from its input
+
+The cursor of these passes carries the modifications `finditer` found in the text it was made for; `new`,
+`advance_on_success` and `advance` only produce such cursors (`mods_cursor_wellformed`).  For a cursor made for `s`: -/
+
+/-- the passes the generated tables define for the shipped arguments are the `finditer` passes over these entries -/
+theorem ints_special_passes :
+    intsPass "a" = some (modPass (intsEntry "a").1 (intsEntry "a").2) ∧ intsPass "b" = some (modPass (intsEntry "b").1 (intsEntry "b").2) ∧
+    intsPass "c" = some (modPass (intsEntry "c").1 (intsEntry "c").2) ∧ intsPass "d" = some (modPass (intsEntry "d").1 (intsEntry "d").2) ∧
+    specialPass "a" = some (modPass (specialEntry "a").1 (specialEntry "a").2) ∧
+    specialPass "b" = some (modPass (specialEntry "b").1 (specialEntry "b").2) ∧
+    specialPass "c" = some (modPass (specialEntry "c").1 (specialEntry "c").2) := ⟨rfl, rfl, rfl, rfl, rfl, rfl, rfl⟩
+
+/-- the cursors `new` / `advance_on_success` create are made for the text they are given; `advance` keeps the list -/
+theorem mods_cursor_wellformed (id : Nat) (rec : List RPiece) (s : Text) (st st' : ModSt) :
+    ((modPass id rec).new s = some st → st.mods = modsOf id rec s) ∧
+    ((modPass id rec).aos s st' = some st → st.mods = modsOf id rec s) ∧
+    ((modPass id rec).advance s st' = some st → st.mods = st'.mods) := by
+  refine ⟨fun h => (modNew_inv id rec s st h).1, fun h => (modNew_inv id rec s st h).1, fun h => ?_⟩
+  simp only [modPass] at h
+  split at h
+  · cases h
+  · cases h; rfl
+
+/-- **ints a, b, c, d: every OK candidate differs from the input** (a, b, c: it is strictly shorter — one digit, the
+    prefix `0`/`0x`, the suffix letters are gone; d: the decimal rendering of `0x…` has another length or a digit where the
+    `x` stood).  For every text and every cursor made for it. -/
+theorem ok_differs_ints (arg : String) (harg : arg = "a" ∨ arg = "b" ∨ arg = "c" ∨ arg = "d") (s : Text) (st : ModSt)
+    (hst : st.mods = modsOf (intsEntry arg).1 (intsEntry arg).2 s) (out : Text) (st' : ModSt)
+    (h : (modPass (intsEntry arg).1 (intsEntry arg).2).transform s st = (.ok, out, st')) : out ≠ s := by
+  obtain ⟨m, hm, rfl⟩ := modPass_ok _ _ s st hst out st' h
+  rcases harg with ha | ha | ha | rfl
+  · exact ints_candidates_differ arg (Or.inl ha) s m hm
+  · exact ints_candidates_differ arg (Or.inr (Or.inl ha)) s m hm
+  · exact ints_candidates_differ arg (Or.inr (Or.inr ha)) s m hm
+  · exact ints_d_candidates_differ s m hm
+
+/-- **special a, b, c: every OK candidate differs from the input** (a: `transparent_crc(…)` → `printf(…)` changes the
+    first character of the match; b, c: the non-empty match `extern 'C'` / `extern 'C++'` is deleted) -/
+theorem ok_differs_special (arg : String) (harg : arg = "a" ∨ arg = "b" ∨ arg = "c") (s : Text) (st : ModSt)
+    (hst : st.mods = modsOf (specialEntry arg).1 (specialEntry arg).2 s) (out : Text) (st' : ModSt)
+    (h : (modPass (specialEntry arg).1 (specialEntry arg).2).transform s st = (.ok, out, st')) : out ≠ s := by
+  obtain ⟨m, hm, rfl⟩ := modPass_ok _ _ s st hst out st' h
+  rcases harg with rfl | ha | ha
+  · exact special_a_candidates_differ s m hm
+  · exact special_bc_candidates_differ arg (Or.inl ha) s m hm
+  · exact special_bc_candidates_differ arg (Or.inr ha) s m hm
+
+/-- ints a, b, c and special b, c only delete: the candidate is strictly shorter -/
+theorem ints_special_deleting_shorter (s : Text) :
+    (∀ arg, (arg = "a" ∨ arg = "b" ∨ arg = "c") → ∀ m ∈ modsOf (intsEntry arg).1 (intsEntry arg).2 s,
+      (s.take m.1.1 ++ m.2 ++ s.drop m.1.2).length < s.length) ∧
+    (∀ arg, (arg = "b" ∨ arg = "c") → ∀ m ∈ modsOf (specialEntry arg).1 (specialEntry arg).2 s,
+      (s.take m.1.1 ++ m.2 ++ s.drop m.1.2).length < s.length) := by
+  constructor
+  · intro arg harg
+    apply mods_shorten
+    intro a e c hm he
+    rcases harg with rfl | rfl | rfl
+    · rw [ints_a_shape.1]; exact shapeA_shorter _ ints_a_shape.2 s a e c hm he
+    · rw [ints_b_shape.1]; exact shapeB_shorter _ ints_b_shape.2 s a e c hm he
+    · rw [ints_c_shape.1]; exact shapeC_shorter _ ints_c_shape.2 s a e c hm he
+  · intro arg harg
+    apply mods_shorten
+    intro a e c hm he
+    obtain ⟨h1, h2⟩ := special_bc_shape arg harg
+    rw [h1]
+    have := h2 (toArr s) a [] (e, c) hm
+    simp only [List.flatMap_nil, List.length_nil]
+    omega
+
+/-- the hypotheses are about the regenerated regexes: they have the shapes the theorems need (that such regexes match at
+    all is what the K-pass correspondence runs show: the engine is defined by well-founded recursion, which the kernel does
+    not evaluate) -/
+example : shapeA (rxTbl (intsEntry "a").1) ∧ shapeB (rxTbl (intsEntry "b").1) ∧ shapeC (rxTbl (intsEntry "c").1) ∧ shapeD (rxTbl (intsEntry "d").1) :=
+  ⟨ints_a_shape.2, ints_b_shape.2, ints_c_shape.2, ints_d_shape.2⟩
 
 /-! text outside the matched region is preserved: the candidate is `input[:a] ++ mid ++ input[b:]` -/
 theorem local_ints_special (id : Nat) (rec : List RPiece) (s : Text) (st : ModSt) (out : Text) (st' : ModSt)
